@@ -118,9 +118,6 @@ def encNTSpec (isU : Bool) (v ε : Float) (tvo : Bool) (e : NT × AList DP (List
   .list [ofNat e.1, ofNat m, ofNat c, ofNat np, ofF (specNorm ε tvo m c),
          ofF (specVarMass v ε tvo (np > 0) m c), ofBool (hypEps v ε tvo (np > 0) m c)]
 
-def positionsOf (L : Layer) (steps : List (NT × DP)) : List Nat :=
-  steps.filterMap (fun sp => if sp.2.kind = .prim then posOf L sp.1 sp.2 else none)
-
 def handle : Sexp → Option Sexp
   | .list [.atom "c19.run", .atom kind, .atom absk, vb, eb, tvo, .list grams, .list infos, .list orders,
            treq, .list xs, .list progs] => do
